@@ -738,6 +738,9 @@ static const Fixed CORPUS[] = {
   { "R{a:=X1 | 1=2 | \xE2\x88\x85}", "K9:recursion-init-type", true }, { "R{a:=X1 | \xE2\x88\x85}", "K9:recursion-init-type", true },
   { "\xE2\x88\x80x\xE2\x88\x88R{a:=X1 | 1=2 | \xE2\x88\x85} pr1(x)=x", "K9:recursion-init-type", true }, { "R{a:=S1 | 1=2 | \xE2\x88\x85}\xE2\x88\xAAX1", "K9:recursion-init-type", true },
   { "R{a:=\xE2\x88\x85 | 1=2 | X1}", "fixed", false }, { "R{(a,b):=(X1,\xE2\x88\x85) | (\xE2\x88\x85, b)}", "K9:recursion-init-type", true },
+  // the same name re-declared at different nesting depths (seeded change C03-2)
+  { "\xE2\x88\x80x\xE2\x88\x88X1 \xE2\x88\x80" "a\xE2\x88\x88X1 a=x & \xE2\x88\x80" "a\xE2\x88\x88X1 (\xE2\x88\x83" "b\xE2\x88\x88X1 a=b & a=a)", "fixed", false },
+  { "\xE2\x88\x80" "a\xE2\x88\x88X1 a=a & \xE2\x88\x80x\xE2\x88\x88X1 (\xE2\x88\x80" "a\xE2\x88\x88X1 a=x & a=x)", "fixed", false },
   // a recursion whose step type never stabilises has no type (found by prover-C03: accepted as ℬℬℬℬℬℬℬ(R0))
   { "R{\xCE\xBE:=\xE2\x88\x85 | {\xCE\xBE}}", "K10:recursion-unstable", true }, { "R{\xCE\xBE:=\xE2\x88\x85 | \xE2\x84\xAC(\xCE\xBE)}", "K10:recursion-unstable", true },
   { "R{\xCE\xBE:=\xE2\x88\x85 | \xCE\xBE\xE2\x88\xAA{\xCE\xBE}}", "K10:recursion-unstable", true }, { "R{\xCE\xBE:=\xE2\x88\x85 | 1=1 | {\xCE\xBE}}", "K10:recursion-unstable", true },
@@ -761,6 +764,22 @@ static const Fixed CORPUS[] = {
   { "2147483647+1", "fixed", false }, { "P1[debool(X1), X1]", "fixed", false }, { "P1[debool(X1), \xE2\x88\x85]", "fixed", false }, { "\xC2\xACP1[debool(X1), X1]", "fixed", false },
 };
 
+// scope stress: quantifiers over the three names a, b, c re-declared freely at any depth (after their scope
+// ended: a warning; inside it: an error), atoms that use any of the names whether in scope or not
+static std::string scopeStress(vh::Rng& rng, int depth) {
+  static const std::vector<std::string> names = { "a", "b", "c" };
+  auto atom = [&] { return rng.pick(names) + "=" + rng.pick(names); };
+  if (depth <= 0) return atom();
+  switch (rng.range(0, 5)) {
+  default:
+  case 0: return atom();
+  case 1: case 2: return std::string(rng.chance(1, 2) ? "\xE2\x88\x80" : "\xE2\x88\x83") + rng.pick(names) + "\xE2\x88\x88X1 " + scopeStress(rng, depth - 1);
+  case 3: return "(" + scopeStress(rng, depth - 1) + ") & (" + scopeStress(rng, depth - 1) + ")";
+  case 4: return std::string(rng.chance(1, 2) ? "\xE2\x88\x80" : "\xE2\x88\x83") + rng.pick(names) + "\xE2\x88\x88X1 (" + scopeStress(rng, depth - 1) + " & " + scopeStress(rng, depth - 1) + ")";
+  case 5: return scopeStress(rng, depth - 1) + " & " + scopeStress(rng, depth - 1);
+  }
+}
+
 int main() {
   vh::Rng rng(vh::seedFromEnv());
   const bool deep = vh::thorough();
@@ -776,6 +795,7 @@ int main() {
     for (const auto& f : CORPUS) {
       runCase(cv, f.text, Syntax::MATH, f.cls);
     }
+    for (int i = 0; i < (deep ? 120 : 60); ++i) runCase(cv, scopeStress(rng, rng.range(2, 5)), Syntax::MATH, "gen:scope-stress");
     for (int i = 0; i < perCtx; ++i) {
       Gen g(rng, cv);
       const int kind = rng.range(0, 9);
